@@ -436,3 +436,13 @@ pub fn replay(unit: &str, bytes: Option<Vec<Vec<u8>>>) -> i32 {
         _ => { println!("REPLAY-ERROR unknown unit {unit}"); 2 }
     }
 }
+
+// ------------------------------------------------------------------------------------------------
+// thin accessors for pub(crate) items, used by the native replay of Verus units (/verif/replay)
+// ------------------------------------------------------------------------------------------------
+#[cfg(not(kani))]
+pub fn hook_int_type_token(min: Option<i128>, max: Option<i128>, ext: bool) -> String {
+    use crate::generator::Backend;
+    let backend = crate::generator::rasn::Rasn::default();
+    backend.int_type_token(min, max, ext).to_string()
+}
